@@ -198,6 +198,23 @@ impl Session {
         self.stderr.lock().unwrap().iter().find(|l| l.contains("panicked")).cloned()
     }
 
+    /// CPU time (user + system, in clock ticks of 10 ms) the engine process has consumed so far
+    pub fn cpu_ticks(&self) -> Option<u64> {
+        let stat = std::fs::read_to_string(format!("/proc/{}/stat", self.pid())).ok()?;
+        // fields after the parenthesised command name: state is field 3, utime 14, stime 15
+        let rest = stat.rsplit_once(')')?.1;
+        let f: Vec<&str> = rest.split_whitespace().collect();
+        Some(f.get(11)?.parse::<u64>().ok()? + f.get(12)?.parse::<u64>().ok()?)
+    }
+
+    /// true when the process consumed (next to) no CPU time during the next `ms` milliseconds: it is waiting, not searching
+    pub fn idle_for(&self, ms: u64) -> Option<bool> {
+        let a = self.cpu_ticks()?;
+        std::thread::sleep(Duration::from_millis(ms));
+        let b = self.cpu_ticks()?;
+        Some(b.saturating_sub(a) * 10 < ms / 20)
+    }
+
     pub fn pid(&self) -> u32 {
         self.child.id()
     }
